@@ -10,6 +10,7 @@ import (
 	"strings"
 	"time"
 
+	"github.com/influxdata/influxdb/pkg/verifhook"
 	"go.uber.org/zap"
 )
 
@@ -88,7 +89,13 @@ func (s *Service) Open() error {
 
 		s.ln = listener
 	} else {
-		listener, err := net.Listen("tcp", s.httpAddr)
+		var listener net.Listener
+		var err error
+		if ln, lerr, ok := verifhook.Listen("tcp", s.httpAddr); verifhook.Enabled && ok {
+			listener, err = ln, lerr
+		} else {
+			listener, err = net.Listen("tcp", s.httpAddr)
+		}
 		if err != nil {
 			return err
 		}
